@@ -12,7 +12,7 @@ Usage: selftest/mutants.py [-j N] [-t quick|thorough] [ids...]      results -> s
 """
 import json, os, subprocess, sys, shutil, concurrent.futures, re, time
 
-ENV = dict(os.environ, GOFLAGS="-mod=mod", GOPROXY="off", GOSUMDB="off", GOTOOLCHAIN="local")
+ENV = dict(os.environ, GOFLAGS="-mod=mod", GOPROXY="off", GOSUMDB="off", GOTOOLCHAIN="local", VERIF_WATCHDOG_S=os.environ.get("VERIF_WATCHDOG_S", "90"))
 ROOT = os.path.dirname(os.path.dirname(os.path.abspath(__file__)))
 
 # id, expected checks, file, old, new, description
@@ -50,6 +50,7 @@ M = [
  ("M49","C18","collection.go","\t\tc.slock.Lock(uint(chunk)) // no commit may touch the chunk while it is indexed\n\t\tif column.Snapshot(chunk, buffer) {\n\t\t\treader.Seek(buffer)\n\t\t\tindex.Apply(chunk, reader)\n\t\t}\n\t\tc.slock.Unlock(uint(chunk))\n\t}\n\n\treturn nil\n}\n\n// CreateSortIndex","\t\tif column.Snapshot(chunk, buffer) {\n\t\t\treader.Seek(buffer)\n\t\t\tindex.Apply(chunk, reader)\n\t\t}\n\t}\n\n\treturn nil\n}\n\n// CreateSortIndex","CreateIndex back-fills without the chunk latch (reverts part of fix D16a)"),
  ("M50","C09 C11","column_numbers.go","func makeInt64s(opts ...func(*option[int64])) Column {\n\treturn makeNumeric(\n\t\tfunc(buffer *commit.Buffer, idx uint32, value int64) { buffer.PutInt64(commit.Put, idx, value) },\n\t\tfunc(r *commit.Reader, fill bitmap.Bitmap, data []int64, opts option[int64]) {\n\t\t\tfor r.Next() {\n\t\t\t\toffset := r.IndexAtChunk()\n\t\t\t\tswitch r.Type {\n\t\t\t\tcase commit.Put:\n\t\t\t\t\tfill[offset>>6] |= 1 << (offset & 0x3f)\n\t\t\t\t\tdata[offset] = r.Int64()\n\t\t\t\tcase commit.Merge:\n\t\t\t\t\tif !fill.Contains(offset) {\n\t\t\t\t\t\tdata[offset] = 0 // no value, do not merge with a stale one\n\t\t\t\t\t}\n","func makeInt64s(opts ...func(*option[int64])) Column {\n\treturn makeNumeric(\n\t\tfunc(buffer *commit.Buffer, idx uint32, value int64) { buffer.PutInt64(commit.Put, idx, value) },\n\t\tfunc(r *commit.Reader, fill bitmap.Bitmap, data []int64, opts option[int64]) {\n\t\t\tfor r.Next() {\n\t\t\t\toffset := r.IndexAtChunk()\n\t\t\t\tswitch r.Type {\n\t\t\t\tcase commit.Put:\n\t\t\t\t\tfill[offset>>6] |= 1 << (offset & 0x3f)\n\t\t\t\t\tdata[offset] = r.Int64()\n\t\t\t\tcase commit.Merge:\n","int64 merge into an absent cell starts from stale data (reverts fix D13 for one type)"),
 ]
+M.append(("M51","C18 C08","snapshot.go","\tc.slock.RLock(uint(chunk))\n\tc.lock.Lock()\n\tdefer c.slock.RUnlock(uint(chunk))\n\tdefer c.lock.Unlock()","\tc.lock.Lock()\n\tc.slock.RLock(uint(chunk))\n\tdefer c.slock.RUnlock(uint(chunk))\n\tdefer c.lock.Unlock()","snapshot takes the collection mutex before the block latch (lock-order inversion with commits: deadlock)"))
 # two entries above are placeholders replaced here by multi-site edits
 MULTI = {
  "M18": ("C03 C19", [("txn.go","\t\tupdated = true\n\t\ttxn.reader.Range(u, chunk, func(r *commit.Reader) {\n\t\t\tcolumns[0].Apply(chunk, r)\n\t\t})\n\n\t\t// Range through all of the computed columns and apply the final state updates.\n\t\tif len(columns) > 1 {\n\t\t\ttxn.reader.Range(u, chunk, func(r *commit.Reader) {\n\t\t\t\tfor _, v := range columns[1:] {\n\t\t\t\t\tv.Apply(chunk, r)\n\t\t\t\t}\n\t\t\t})\n\t\t}\n",
@@ -94,7 +95,7 @@ def run_mutant(m, tier, slot):
         rc, out = sh("go build ./...", cwd=wt)
         if rc != 0:
             res["status"] = "does-not-compile"; res["note"] = out[-400:]; return res
-        rc, out = sh("go test -vet=off -count=1 ./...", cwd=wt)
+        rc, out = sh("go test -vet=off -count=1 -timeout 5m ./...", cwd=wt)
         if rc != 0:
             res["status"] = "killed-by-repo-suite"
             fails = re.findall(r"--- FAIL: (\S+)", out)
